@@ -298,7 +298,8 @@ def foreign_trio(d, action):
              "grants is MEASURED: the remaining time it lists right after the registration minus the TTL (at most the 30 s of "
              "J.5.2.3).  At a symbolic second up to two seconds past the later of the two ends the simple node broadcasts and "
              "the table is read: the first device is gone once TTL + grace have passed, the second once the grace has passed "
-             "since it unregistered - each entry ages on its own, whatever happens to its neighbours in the table - the "
+             "since it unregistered (looked at half a second after the whole second, between two sweeps) - each entry ages on its "
+             "own, whatever happens to its neighbours in the table - the "
              "third is served and listed throughout",
       outside="more than three entries; sub-second instants",
       stubs=STUBS, assumes=["the grace period is the one the BBMD itself lists at registration"])
@@ -326,7 +327,8 @@ def foreign_age(d):
     end0, end1 = 1 + grace, u + grace
     wait = d.int(0, max(end0, end1) + 2, 'wait')
     d.assume(wait >= u)
-    w.run(until=t0 + wait)
+    # half a second after the whole second: between two sweeps of the table
+    w.run(until=t0 + wait + 0.5)
     for f in foreign:
         f.top.got = []
     simple.broadcast(b"\x10\x08")
@@ -334,7 +336,7 @@ def foreign_age(d):
     listed = fdt_listing(w, simple, bb)
     if listed is None:
         raise Violation("read-fdt-not-answered")
-    for k, (f, must, must_not) in enumerate(((foreign[0], wait <= 1, wait > end0), (foreign[1], wait < u, wait > end1),
+    for k, (f, must, must_not) in enumerate(((foreign[0], wait < 1, wait >= end0), (foreign[1], wait < u, wait >= end1),
                                             (foreign[2], True, False))):
         served = len(f.top.got)
         is_listed = any(a == bytes(f.station.addrAddr) for (a, t, r) in listed)
